@@ -84,3 +84,11 @@ pub unsafe fn asm_other() {
     #[cfg(target_arch = "x86_64")]
     core::arch::asm!("nop");
 }
+
+pub fn prune(h: &mut Holder) {
+    h.v.retain(|r| !r.0.is_null());
+}
+
+pub fn keep(h: &mut Holder, r: Res) {
+    h.v.push(r);
+}
